@@ -72,6 +72,9 @@ type Attr struct {
 	CustomSuffix string `json:"custom_suffix,omitempty"`
 	CustomType   string `json:"custom_type,omitempty"`
 	Cast         bool   `json:"cast,omitempty"`
+	// Alt: the Terraform type of the leaf is overridden through schema_types
+	// (harness types tfx.AltString / AltInt64 / AltBool).
+	Alt bool `json:"alt,omitempty"`
 	// Class is a short shape class used in fingerprints and evidence
 	// (e.g. "map<string,bytes>", "repeated msg(empty)", "embed? child string").
 	Class string `json:"class"`
